@@ -86,13 +86,17 @@ pub(super) fn file_system() -> FunctionMap {
     });
 
     std_function!(functions => fn DIRECTORY_READ(path: Value::String) {
-        let paths = fs::read_dir(path).expect("Failed to read directory");
+        // return NULL if the directory can't be read
+        let Ok(paths) = fs::read_dir(path) else {
+            return Ok(Value::Null)
+        };
 
         let mut dir_list = Vec::new();
         for path in paths {
-            let path = path.unwrap().path();
-            let path = path.to_str().unwrap();
-            dir_list.push(Value::String(path.to_string()));
+            let Ok(path) = path else {
+                return Ok(Value::Null)
+            };
+            dir_list.push(Value::String(path.path().to_string_lossy().into_owned()));
         }
 
         return Ok(Value::List(Rc::new(RefCell::new(dir_list))))
